@@ -56,6 +56,14 @@ def int_cases():
                 if v in (0, 255, 2**64 - 1):
                     cases.append(('WORD', f'{ty}#16#{v:X}', f'bits {v} {ty}', 'bits'))
                     cases.append(('WORD', f'{ty}#{v}', f'bits {v} {ty}', 'bits-dec'))
+    # a digit the base does not have makes the literal unreadable: it is never dropped, skipped or read in another base
+    for lit in ['2#102', '2#1021', '2#2', '2#1_2', '8#78', '8#19', '8#8', '8#7_9', 'INT#2#1210', 'UINT#8#7787', '16#FG', '16#G', '2#', '8#', '16#']:
+        cases.append(('INT', lit, 'ERR P0002', 'int-digit-outside-base'))
+    # boolean literals: TRUE / FALSE / BOOL#0 / BOOL#1 (and the typed keywords); every other number behind BOOL# is rejected
+    for lit, exp in [('TRUE', 'bool 1'), ('FALSE', 'bool 0'), ('BOOL#1', 'bool 1'), ('BOOL#0', 'bool 0'), ('BOOL#TRUE', 'bool 1'), ('BOOL#FALSE', 'bool 0'),
+                     ('BOOL#2', 'ERR P0002'), ('BOOL#7', 'ERR P0002'), ('BOOL#10', 'ERR P0002'), ('BOOL#255', 'ERR P0002'), ('BOOL#1_0', 'ERR P0002'),
+                     ('BOOL#11', 'ERR P0002'), ('BOOL#-1', 'ERR P0002'), ('BOOL#16#1', 'ERR P0002')]:
+        cases.append(('BOOL', lit, exp, 'bool'))
     cases.append(('INT', '16#ff', 'int + 255 -', 'int-hex-lower'))
     cases.append(('INT', '16#aB_cD', f'int + {0xabcd} -', 'int-hex-mixed'))
     return cases
